@@ -580,6 +580,8 @@ def literal_family(tier, seed):
     values += [
         [T, T], [E_, E_], (T, T), {"a": T, "b": T}, [L, L], {"k": [T, T], "m": (T,)}, [[[[1]]]], [T, [T, (T,)]], {1: L, 2: L},
         [1.5, float("inf")], {"a": Decimal("1")}, [E.A], {IE.ONE},
+        # long values (the literal exceeds any plausible length cap): a mutable default must be rebuilt per call however long it is
+        [0.0] * 400, {f"key{i}": [i] for i in range(120)}, list(range(600)), {i for i in range(500)},
     ]
 
     def literal_leaves_only(v):
@@ -1641,6 +1643,11 @@ def soundness_family(tier, seed):
         "@dataclass\nclass InnerBad:\n    v: str\n"
         "class MyInt(int):\n    pass\n"
         "from typing import NewType\nUserId = NewType('UserId', int)\nOrderId = NewType('OrderId', int)\n"
+        "from typing import DefaultDict, OrderedDict\n"
+        "@dataclass\nclass DstNode:\n    v: int\n    children: List['DstNode']\n"
+        "@dataclass\nclass SrcLeaf:\n    v: str\n    children: List['SrcLeaf']\n"
+        "@dataclass\nclass SrcMid:\n    v: int\n    children: List[SrcLeaf]\n"
+        "@dataclass\nclass SrcRoot:\n    v: int\n    children: List[SrcMid]\n"
     )
     pairs = [
         ("int", "int", "as-is"), ("int", "str", "refuse"), ("bool", "int", "as-is"), ("int", "bool", "refuse"), ("MyInt", "int", "as-is"),
@@ -1668,6 +1675,12 @@ def soundness_family(tier, seed):
         ("Tuple[int, str]", "Tuple[int, str]", "accept"), ("Tuple[int, str]", "Tuple[str, int]", "refuse"),
         ("Tuple[int, str]", "Tuple[int, str, bytes]", "refuse"),
         ("Tuple[()]", "List[int]", "refuse"), ("List[int]", "Tuple[()]", "refuse"),
+        # the dict coercer builds a plain dict: it may serve destinations a plain dict IS a value of, nothing narrower
+        ("Dict[str, int]", "OrderedDict[str, int]", "refuse"), ("Dict[str, int]", "DefaultDict[str, int]", "refuse"),
+        ("Mapping[str, int]", "OrderedDict[str, int]", "refuse"), ("OrderedDict[str, int]", "OrderedDict[str, int]", "as-is"),
+        ("OrderedDict[str, Inner]", "OrderedDict[str, InnerDTO]", "refuse"),
+        # recursive destination, a chain of different source models whose last link does not fit (v: str -> int at depth 3)
+        ("SrcRoot", "DstNode", "refuse"),
     ]
     import types
     for idx, (st, dt, want) in enumerate(pairs):
